@@ -99,23 +99,25 @@ type analyzer struct {
 	structs   map[*types.Named]*structInfo
 	fieldInfo map[string]*fieldFacts
 
-	stdCallable    []stdMethod
-	infeasibleUsed map[int]bool
-	leaks          map[string]string // function|class -> where (functions that return holding a lock they took)
-	knownLeaks     map[string]bool
-	pub            *pubState
-	onceUsed       map[int]bool
-	ownedBy        map[*types.Named][]string
-	chanSites      map[ssa.Instruction][]*chanSite
-	chanAll        []*chanSite
-	chanClosed     map[string]bool
-	chanByFn       map[*ssa.Function][]*chanSite // close sites per function
-	traceMemo      map[*ssa.Function][][]pubEvent
-	traceBusy      map[*ssa.Function]bool
-	traceRaw       map[*ssa.Function][][]pubEvent
-	record         bool // discipline facts are recorded in this pass
-	contexts       int
-	notes          map[string]int
+	stdCallable      []stdMethod
+	infeasibleUsed   map[int]bool
+	leaks            map[string]string // function|class -> where (functions that return holding a lock they took)
+	knownLeaks       map[string]bool
+	pub              *pubState
+	onceUsed         map[int]bool
+	ownedBy          map[*types.Named][]string
+	chanSites        map[ssa.Instruction][]*chanSite
+	chanAll          []*chanSite
+	chanClosed       map[string]bool
+	fns              []*ssa.Function // the reachable functions of the tracked modules
+	escapeExemptUsed map[string]bool
+	chanByFn         map[*ssa.Function][]*chanSite // close sites per function
+	traceMemo        map[*ssa.Function][][]pubEvent
+	traceBusy        map[*ssa.Function]bool
+	traceRaw         map[*ssa.Function][][]pubEvent
+	record           bool // discipline facts are recorded in this pass
+	contexts         int
+	notes            map[string]int
 }
 
 type lockSite struct {
@@ -1392,6 +1394,7 @@ func (a *analyzer) run() {
 			}
 		}
 	}
+	a.fns = fns
 	isEntry := func(fn *ssa.Function) (bool, string) {
 		if goTargets[fn] {
 			return true, "go"
@@ -1571,10 +1574,39 @@ func (a *analyzer) prepareOwners() {
 		}
 		return false
 	}
+	// the tracked struct types without a mutex: what an interface-typed field can hold
+	var plain []*types.Named
+	for _, p := range a.prog.AllPackages() {
+		if !tracked(p.Pkg.Path()) {
+			continue
+		}
+		for _, mem := range p.Members {
+			if tn, ok := mem.(*ssa.Type); ok {
+				if n, ok := tn.Type().(*types.Named); ok && n.TypeParams().Len() == 0 {
+					if st, ok := n.Underlying().(*types.Struct); ok && !hasMutex(st) {
+						plain = append(plain, n)
+					}
+				}
+			}
+		}
+	}
+	viaIface := true
 	var mention func(t types.Type, depth int, out map[*types.Named]bool)
 	mention = func(t types.Type, depth int, out map[*types.Named]bool) {
 		if depth > 2 {
 			return
+		}
+		if n, ok := types.Unalias(t).(*types.Named); ok {
+			// a field of an interface type of lal / naza holds one of its implementations (IGroupManager:
+			// SimpleGroupManager, ComplexGroupManager)
+			if it, ok := n.Underlying().(*types.Interface); ok && viaIface && it.NumMethods() > 0 && n.Obj().Pkg() != nil && tracked(n.Obj().Pkg().Path()) {
+				for _, c := range plain {
+					if types.Implements(types.NewPointer(c), it) {
+						out[c.Origin()] = true
+					}
+				}
+				return
+			}
 		}
 		switch x := types.Unalias(t).(type) {
 		case *types.Pointer:
@@ -1630,6 +1662,8 @@ func (a *analyzer) prepareOwners() {
 			}
 		}
 	}
+	// (an observer interface in a struct without a mutex is a back reference, not a second container)
+	viaIface = false
 	// "only reachable through such a container": a type that a struct WITHOUT a mutex also keeps in a
 	// field (the remuxer inside CustomizePubSessionContext, a dump file ...) has instances the owner's
 	// mutex does not cover
